@@ -1738,7 +1738,7 @@ class VM:
 
         def hasOwnProperty_fn(*args):
             key = to_string(args[0]) if args else ""
-            return obj.has(key)
+            return self._has_own_property(obj, key)
 
         methods = {
             "toString": toString_fn,
